@@ -254,11 +254,17 @@ def m_mem_swap(ex, a, t):
 def m_vd_with_cap(ex, a, t): return DequeObj()
 def m_mio_wake(ex, a, t): target(a[0]).pending += 1; return Enum('Result', 'Ok', [UNIT])
 def m_now(ex, a, t): return ex.clock
-def m_dur_ms(ex, a, t): return a[0]
-def m_inst_add(ex, a, t): return a[0] + a[1]
-def m_inst_sub(ex, a, t): return a[0] - a[1]
-def m_inst_lt(ex, a, t): return z3.ULT(target(a[0]), target(a[1]))
-def m_dur_gt(ex, a, t): return z3.UGT(target(a[0]), target(a[1]))
+def _to_int(v):
+    v = z3.simplify(v) if z3.is_expr(v) else v
+    if z3.is_bv_value(v): return z3.IntVal(v.as_long())
+    if z3.is_bv(v): return z3.BV2Int(v)
+    return v
+# virtual time: Instants and Durations are mathematical integers (milliseconds); the clock only moves forward
+def m_dur_ms(ex, a, t): return _to_int(a[0])
+def m_inst_add(ex, a, t): return z3.simplify(a[0] + a[1])
+def m_inst_sub(ex, a, t): return z3.simplify(a[0] - a[1])
+def m_inst_lt(ex, a, t): return target(a[0]) < target(a[1])
+def m_dur_gt(ex, a, t): return target(a[0]) > target(a[1])
 def m_listener_accept(ex, a, t):
     l = target(a[0])
     if not l.script: return Enum('Result', 'Err', [IoErr(Enum('ErrorKind', 'WouldBlock'))])
@@ -347,14 +353,14 @@ def m_box_pin(ex, a, t): return BoxObj(a[0])
 def m_sleep_poll(ex, a, t):
     s = a[0]
     while isinstance(s, Ref): s = s.lv.get()
-    return Enum('Poll', 'Ready', [UNIT]) if ex.truth(z3.UGE(ex.clock, s.deadline)) else Enum('Poll', 'Pending')
+    return Enum('Poll', 'Ready', [UNIT]) if ex.truth(ex.clock >= s.deadline) else Enum('Poll', 'Pending')
 def m_sleep_reset(ex, a, t):
     s = a[0]
     while isinstance(s, Ref): s = s.lv.get()
     s.deadline = a[1]; return UNIT
-def m_dur_secs(ex, a, t): return a[0] * 1000
+def m_dur_secs(ex, a, t): return z3.simplify(_to_int(a[0]) * 1000)
 def m_elapsed(ex, a, t): return ex.clock - target(a[0])
-def m_dur_ge(ex, a, t): return z3.UGE(target(a[0]), target(a[1]))
+def m_dur_ge(ex, a, t): return target(a[0]) >= target(a[1])
 def m_mem_take(ex, a, t):
     lv = a[0].lv; old = lv.get()
     f = ex.resolve(('WorkerState', 'Default', 'default'))
